@@ -452,12 +452,22 @@ def nested_order_rulebooks(prefix):
         [ORule("d", glob=True), ORule("a", [ORule("c")]), ORule("b")],
         [ORule("a", [ORule("c")]), ORule("d", glob=True), ORule("b")],
         [ORule("b"), ORule("a", [ORule("c", [ORule("d")])])],
+        # a %global rule that has child rules of its own: below a row it matches, the rule itself still stands BEFORE its
+        # children (it is handed down where it stands in the file), so a nested 'a ...' row precedes 'c ...' and 'd ...'
+        [ORule("a", [ORule("c"), ORule("d")], glob=True), ORule("b")],
+        [ORule("b"), ORule("a", [ORule("d"), ORule("c")], glob=True)],
     ]
 
 
-def nested_order_configs(prefix):
+GLOBAL_WITH_CHILDREN = (8, 9)       # indices of the rulebooks above whose configurations also nest an 'a' row inside 'a'
+
+
+def nested_order_configs(prefix, nested_a=False):
     tops = ["a 1", "a 2", "b 1", "z 1", prefix + " a 9"]
     kids = ["c 1", "d 1", "z 2", prefix + " c 1"]
+    if nested_a:
+        tops = ["a 1", "b 1", "z 1"]
+        kids = ["c 1", "d 1", "a 3", "z 2"]
     kid_sets = [list(p) for n in (0, 1, 2) for p in itertools.permutations(kids, n)]
     for n in (1, 2, 3):
         for sel in itertools.permutations(tops, n):
@@ -485,6 +495,10 @@ def judge_o(vendor, orules, forest, report):
         return False
     if again != got:
         report(dict(sig, kind="order_config-not-idempotent"), case, "once=%r twice=%r" % (got, again))
+    probs = []
+    check_config_ranks(got, list(orules), VENDOR_PREFIX[vendor], probs)
+    for path, detail in probs[:1]:
+        report(dict(sig, kind="config-rank-order"), case, "at %r: %s | ordered configuration=%r" % (list(path), detail, got))
     for row, ch in forest:
         if len(ch) < 2:
             continue
@@ -497,11 +511,27 @@ def judge_o(vendor, orules, forest, report):
     return got != forest
 
 
+def check_config_ranks(cfg, level_rules, prefix, probs, path=()):
+    """an ordered configuration: among the plain (not negated) rows of a block that the ordering rules mention, a row of an
+    earlier rule stands before a row of a later rule - judged with the same reference rank as patches"""
+    ranked = []
+    for row, ch in cfg:
+        negated = row.startswith(prefix + " ")
+        rk, kids, _ = rank(level_rules, [], row, negated, prefix)
+        if rk is not None and not negated:
+            ranked.append((rk, row))
+        if ch:
+            check_config_ranks(ch, kids, prefix, probs, path + (row,))
+    for (r1, c1), (r2, c2) in zip(ranked, ranked[1:]):
+        if r1 > r2:
+            probs.append((path, "%r (rule %d) stands before %r (rule %d)" % (c1, r1, c2, r2)))
+
+
 def run_o(block, ctx):
     v = block["vendor"]
     prefix = VENDOR_PREFIX[v]
     orules = nested_order_rulebooks(prefix)[block["i"]]
-    for forest in nested_order_configs(prefix):
+    for forest in nested_order_configs(prefix, nested_a=block["i"] in GLOBAL_WITH_CHILDREN):
         if ctx.expired():
             return
         changed = judge_o(v, orules, forest, ctx.violation)
